@@ -14,7 +14,7 @@ func init() {
 		}},
 		thorough: tier{jobs: []job{
 			{name: "protocol", run: "^TestProp$", shards: 16, checks: 60000, timeout: 120 * time.Minute},
-			{name: "generated-protocol", pkg: "e2", run: "^TestPropC08Gen$", shards: 16, checks: 300, timeout: 120 * time.Minute},
+			{name: "generated-protocol", pkg: "e2", run: "^TestPropC08Gen$", shards: 16, checks: 120, timeout: 120 * time.Minute},
 		}},
 	})
 	reg(&prop{
@@ -30,9 +30,9 @@ func init() {
 		}},
 		thorough: tier{jobs: []job{
 			{name: "static", run: "^TestStatic$", shards: 1, checks: 1, timeout: 10 * time.Minute},
-			{name: "pure", run: "^TestPropPure$", shards: 16, checks: 8000, timeout: 120 * time.Minute},
-			{name: "generated-pure", pkg: "e2", run: "^TestPropC10$", shards: 16, checks: 20000, timeout: 120 * time.Minute},
-			{name: "generated-static", pkg: "e2", run: "^TestPropC10Static$", shards: 16, checks: 150, timeout: 120 * time.Minute},
+			{name: "pure", run: "^TestPropPure$", shards: 16, checks: 3000, timeout: 120 * time.Minute},
+			{name: "generated-pure", pkg: "e2", run: "^TestPropC10$", shards: 16, checks: 8000, timeout: 120 * time.Minute},
+			{name: "generated-static", pkg: "e2", run: "^TestPropC10Static$", shards: 16, checks: 60, timeout: 120 * time.Minute},
 		}},
 	})
 }
